@@ -18,7 +18,7 @@ for rel,name in m['demo_files'].items():
 open('/tmp/confirm_demo_cmd','w').write(m['demo_cmd'])
 PY
 ln -sfn $SD $WT/_seeded
-DEMO=$(cat /tmp/confirm_demo_cmd | sed "s#/tmp/mut_[A-Za-z0-9_]*#$WT#g")
+DEMO=$(cat /tmp/confirm_demo_cmd | sed -E "s#/tmp/mut_[A-Za-z0-9_]*#$WT#g; s#cd <[^>]*> *&& *##")
 echo "== demo WITHOUT change: $DEMO"
 ( cd $WT && eval "$DEMO" ) > /tmp/confirm_without.log 2>&1; R0=$?
 echo "exit $R0"
